@@ -7,8 +7,14 @@
    property determines.  Vocabulary (Layout/LineBreakSpec.v): a division `ls` of the
    inline content is a list of lines, each a list of units (the pieces between
    consecutive break opportunities, LineBreak.units); `avail` is the width of the
-   containing block, the first line has `avail - indent`. *)
-From Verif Require Import Layout.LineBreak Layout.LineBreakSpec Layout.LineBreakProofs.
+   containing block, the first line has `avail - indent`.
+
+   The first group of theorems is about `break_lines` (white-space only: overflow-wrap:
+   normal); the group "overflow-wrap" below is about `break_lines_e`, the breaker the layout
+   uses, which also handles emergency break opportunities (`EB` items) and is `break_lines`
+   when there is none (C11_break_lines_e_no_eb). *)
+From Verif Require Import Layout.LineBreak Layout.LineBreakSpec Layout.LineBreakProofs
+  Layout.LineBreakEmergency.
 From Coq Require Import List ZArith QArith Bool.
 Import ListNotations.
 Open Scope Z_scope.
@@ -214,6 +220,109 @@ Theorem C11_indent_first_line : forall c last l,
 Proof. exact indent_first_line. Qed.
 Print Assumptions C11_indent_first_line.
 
+(* the line box: starts text-indent before the content, ends where the content ends *)
+Theorem C11_line_box_spec : forall (c : cfg) (first last : bool) (l : list item),
+  let ind := if first then indent c else 0%Z in
+  let v := trim_line l in
+  let p := align_params c ind last v in
+  let start := (x0 c + zq ind + fst p)%Q in
+  (fst (line_box c first last l) + zq ind == start)%Q /\
+  (fst (line_box c first last l) + snd (line_box c first last l) == start + advance (em c) (snd p) v)%Q.
+Proof. exact line_box_spec. Qed.
+Print Assumptions C11_line_box_spec.
+
+(* a line box that holds nothing (CSS 2.1 9.4.2) does not exist: no height, not the first line *)
+Theorem C11_phantom_line : forall c first y l r, phantom l = true ->
+  stack c first y (l :: r) = stack c first y r.
+Proof. exact stack_phantom. Qed.
+Print Assumptions C11_phantom_line.
+
+(* ================= overflow-wrap: anywhere | break-word (CSS Text 3, 5.5) =================
+   `EB` items mark the emergency break opportunities; a division is a list of lines of
+   tagged pieces (Layout/LineBreakSpec.v, second part). *)
+
+(* the lines are made of all the pieces, in order, none empty *)
+Theorem C11_break_partition_e : forall avail indent items,
+  PartitionE (tsub items) (break_lines_e avail indent items).
+Proof. exact break_partition_e. Qed.
+Print Assumptions C11_break_partition_e.
+
+Theorem C11_concat_lines_e : forall avail indent items,
+  concat (flat_e (break_lines_e avail indent items)) = items.
+Proof. exact concat_lines_e. Qed.
+Print Assumptions C11_concat_lines_e.
+
+(* a line overflows only when it is a single piece, which cannot be broken even in an
+   emergency *)
+Theorem C11_lines_fit_e : forall avail indent items,
+  FitsE avail (avail - indent) (break_lines_e avail indent items).
+Proof. exact lines_fit_e. Qed.
+Print Assumptions C11_lines_fit_e.
+
+(* at a regular opportunity the whole next unit does not fit after the line; at an emergency
+   opportunity not even the next piece does *)
+Theorem C11_greedy_maximal_e : forall avail indent items,
+  MaximalE avail (avail - indent) (break_lines_e avail indent items).
+Proof. exact greedy_maximal_e. Qed.
+Print Assumptions C11_greedy_maximal_e.
+
+(* "may be broken at an arbitrary point if there are no otherwise-acceptable break points in
+   the line": a line that ends at an emergency opportunity holds no regular one *)
+Theorem C11_emergency_only : forall avail indent items,
+  EmergencyOnly (break_lines_e avail indent items).
+Proof. exact emergency_only. Qed.
+Print Assumptions C11_emergency_only.
+
+(* what the tags mean, in terms of the item list: a piece tagged true follows a regular
+   opportunity (cut_b), a piece tagged false follows an emergency opportunity (ecut_b: right
+   after an EB, not between an inline-box edge and its content) that is no regular one *)
+Theorem C11_tsub_tags : forall items a t p b,
+  tsub items = a ++ (t, p) :: b -> a <> [] ->
+  let pre := rev (cat a) in let suf := p ++ cat b in
+  if t then cut_b pre suf = true
+  else ecut_b pre suf = true /\ cut_b pre suf = false.
+Proof. exact tsub_tags. Qed.
+Print Assumptions C11_tsub_tags.
+
+(* "a line never breaks where white-space / overflow-wrap forbid it": every line boundary is
+   a regular opportunity, or an emergency one and then the line that ends there holds no
+   regular opportunity: in particular a word that starts in the middle of a line (after a
+   regular opportunity) is moved to the next line before it is broken *)
+Theorem C11_no_forbidden_break_e : forall avail indent items a g b,
+  break_lines_e avail indent items = a ++ g :: b -> b <> [] ->
+  let pre := rev (cat (concat (a ++ [g]))) in let suf := cat (concat b) in
+  cut_b pre suf = true \/
+  (ecut_b pre suf = true /\ cut_b pre suf = false /\ all_emergency (tl g) = true).
+Proof. exact no_forbidden_break_e. Qed.
+Print Assumptions C11_no_forbidden_break_e.
+
+(* "a line ends at a forced break": on a line nothing but end edges of inline boxes follows a
+   forced break *)
+Theorem C11_forced_respected_e : forall avail indent items,
+  Forall (fun l => forall x y, l = x ++ Hard :: y -> forallb is_close y = true)
+         (flat_e (break_lines_e avail indent items)).
+Proof. exact forced_respected_e. Qed.
+Print Assumptions C11_forced_respected_e.
+
+(* in a unit nothing but end edges follows a forced break (so a line that ends with the
+   last piece of such a unit ends at the forced break) *)
+Theorem C11_unit_hard_tail : forall items a u b x y,
+  units items = a ++ u :: b -> u = x ++ Hard :: y -> forallb is_close y = true.
+Proof. intros items a u b x y H. exact (units_hard_tail items a u b H x y). Qed.
+Print Assumptions C11_unit_hard_tail.
+
+(* overflow-wrap: normal (no EB item): the pieces are the units and the breaker is
+   break_lines, to which the first group of theorems (C11_break_unique included) applies *)
+Theorem C11_break_lines_e_no_eb : forall avail indent items, no_eb items ->
+  tsub items = map (pair true) (units items) /\
+  break_lines_e avail indent items = map (map (pair true)) (break_lines avail indent items) /\
+  flat_e (break_lines_e avail indent items) = flat (break_lines avail indent items).
+Proof.
+  intros avail indent items H.
+  exact (conj (tsub_no_eb items H) (break_lines_e_no_eb avail indent items H)).
+Qed.
+Print Assumptions C11_break_lines_e_no_eb.
+
 (* ---- non-vacuity: a paragraph with a span (padding 5+5), an inline-block and a <br>,
    broken at 100 with text-indent 10; the hypotheses of C11_break_unique are inhabited *)
 Definition ex_items : list item :=
@@ -246,4 +355,26 @@ Proof. vm_compute. reflexivity. Qed.
 Example C11_example_layout :
   map ofr (layout (mkCfg 100 10 10 12 AEnd true 0 0) ex_items) =
   [[FT 15 50; FT 70 30]%Q; [FT 15 30; FT 50 10; FA 60 20; FT 80 20]%Q; [FT 0 110]%Q].
+Proof. vm_compute. reflexivity. Qed.
+
+(* ---- overflow-wrap: break-word, glyphs of 10: `aa bbbbbbbb cc` in 50: the word is moved to
+   the next line, then broken; `<span>aa </span>bbb cc` in 40: the word that starts in the
+   middle of the line is NOT broken (it fits on a line of its own) *)
+Definition bw (n : nat) : list item :=   (* a breakable word of n glyphs *)
+  match n with O => [] | S k => Word 10 :: concat (repeat [EB; Word 10] k) end.
+
+Example C11_example_break_word :
+  map (fun l => (lw l, length (filter (fun i => match i with Word _ => true | _ => false end) l)))
+      (flat_e (break_lines_e 50 0 (bw 2 ++ [Space Normal 10] ++ bw 8 ++ [Space Normal 10] ++ bw 2))) =
+  [(20, 2%nat); (50, 5%nat); (30, 3%nat); (20, 2%nat)].
+Proof. vm_compute. reflexivity. Qed.
+
+Example C11_example_mid_line_word_not_broken :
+  map lw (flat_e (break_lines_e 40 0 ([Open 0] ++ bw 2 ++ [Space Normal 10; Close 0] ++ bw 3 ++
+                                      [Space Normal 10] ++ bw 2))) = [20; 30; 20].
+Proof. vm_compute. reflexivity. Qed.
+
+Example C11_example_tags :
+  map (map fst) (break_lines_e 50 0 (bw 2 ++ [Space Normal 10] ++ bw 8)) =
+  [[true; false]; [true; false; false; false; false]; [false; false; false]].
 Proof. vm_compute. reflexivity. Qed.
